@@ -612,8 +612,8 @@ impl Drop for LocalParentGuard {
     fn drop(&mut self) {
         #[cfg(feature = "enable")]
         if let Some(inner) = self.inner.take() {
+            // `token` is `None` if the scope could not be registered (too many nested scopes).
             let (spans, token) = inner.collector.collect_spans_and_token();
-            debug_assert!(token.is_some());
             if let Some(token) = token {
                 inner
                     .collect
